@@ -655,11 +655,15 @@ def check_resolve(ctx: Ctx) -> None:
                             if lab == "T" and s2.kind == "stmt" and isinstance(s2.ast, ast.Return) and isinstance(s2.ast.value, ast.Constant) \
                                     and s2.ast.value.value is False:
                                 zero = True
-                    if isinstance(c.ops[0], ast.Gt) and from_limit(r, n):
-                        sl = prog.slice(tf, l, n)
-                        if any(op == ".st_size" for op, _ in sl.ops) or "st_size" in norm(l) or any("st_size" in a for a in sl.attrs()):
-                            cmp_ok = True
-                    if isinstance(c.ops[0], ast.Lt) and from_limit(l, n) and "st_size" in norm(r):
+                    def is_size(e_: ast.AST, n_=n) -> bool:
+                        """the size of the file in bytes: <stat result>.st_size or os.path.getsize(path)"""
+                        sl = prog.slice(tf, e_, n_)
+                        return any(op == ".st_size" for op, _ in sl.ops) or "st_size" in norm(e_) or any("st_size" in a for a in sl.attrs()) \
+                            or any(str(cn_).endswith("getsize") for cn_ in sl.callees()) or "getsize(" in norm(e_)
+
+                    if isinstance(c.ops[0], ast.Gt) and from_limit(r, n) and is_size(l):
+                        cmp_ok = True
+                    if isinstance(c.ops[0], ast.Lt) and from_limit(l, n) and is_size(r):
                         cmp_ok = True
     if not zero:
         # decided by evaluation: with the limit equal to 0, every path of the size test answers "not too large" - however the
